@@ -1,4 +1,9 @@
+#[cfg(not(feature = "verif"))]
 use std::sync::{Arc, Condvar, Mutex};
+#[cfg(feature = "verif")]
+use crate::verif_sync::{Condvar, Mutex};
+#[cfg(feature = "verif")]
+use std::sync::Arc;
 use tonic::{Code, Request, Response, Status};
 use triggered::Trigger;
 
